@@ -94,9 +94,27 @@ def runTrust (c : Json) : E Json := do
       ("unpatched", Json.bool (trustedPeerUnpatched proxies remote)),
       ("peer_parsable", Json.bool (parseIP (ipFromHostPort remote)).isSome)])])
 
+def resOf (j : Json) : Json := fldD j "res" j
+
+/-- a sequence of requests against one process: the model keeps no state between requests -/
+def runSeq (c : Json) : E Json := do
+  let subs ← arr c "cases"
+  let outs ← subs.mapM runReq
+  pure (Json.mkObj [("res", jarr (outs.map resOf)), ("stats", Json.mkObj [("seq_len", jnat subs.length)])])
+
+/-- peers served in parallel by one service instance: every worker gets, every time, the answer it gets alone -/
+def runPar (c : Json) : E Json := do
+  let ws ← arr c "workers"
+  let outs ← ws.mapM runReq
+  let trusted := outs.filter fun o => (fldD (fldD o "stats" Json.null) "trusted" (Json.bool false)) == Json.bool true
+  pure (Json.mkObj [("res", jarr (outs.map fun o => jarr [resOf o])),
+    ("stats", Json.mkObj [("workers", jnat ws.length), ("listed_workers", jnat trusted.length)])])
+
 def run (c : Json) : E Json := do
   match ← str c "op" with
   | "req" => runReq c
+  | "seq" => runSeq c
+  | "par" => runPar c
   | "trust" => runTrust c
   | op => throw s!"fwd: unknown op {op}"
 
